@@ -21,7 +21,9 @@ import vf
 
 M64 = 1 << 64
 WITNESS = (0x55d0b1358140, 0x55d0b16ffff0, 0x55d0b1496850, 0x55d0b1621040)
-BAD_TOKENS = ("CRASH", "THROW", "TIMEOUT", "BADCASE", "NOTEXPIRED", "NOANALYSERMODEL", "FOREIGN", "<missing>", "MODELERROR", "REPARSE_FAILED")
+PER_CASE = ["30"]     # seconds the C++ driver allows for one case (quick tier: 10)
+SLOW_TOKENS = ("TIMEOUT", "SLOW")
+BAD_TOKENS = ("CRASH", "THROW", "TIMEOUT", "BADCASE", "NOTEXPIRED", "NOANALYSERMODEL", "FOREIGN", "<missing>", "MODELERROR", "REPARSE_FAILED", "SLOW")
 
 
 # ----------------------------------------------------------------------------- key probe
@@ -671,6 +673,79 @@ def gen_history(rng, maxn):
             "old_questions": am["n_old"]}
 
 
+def large_history(rng, kind, m):
+    """A SIZE case: one big connected part of about m variables (plus a linked pair and an isolated variable that have
+    nothing to do with it), built in a shuffled order with shuffled names, a handful of sampled questions (ends of the
+    chain, leaf to leaf across the hub, unrelated parts, both directions), then a remote edit and the same questions again."""
+    core = []          # edges over 0..m-1
+    probes = []        # interesting pairs inside the big part
+    cut = None         # an edit in the middle of the big part
+    if kind == "chain":
+        core = [(i, i + 1) for i in range(m - 1)]
+        probes = [(0, m - 1), (0, m // 2), (m // 3, 2 * m // 3), (1, m - 2)]
+        cut = ("d", m // 2, m // 2 + 1)
+    elif kind == "star":
+        core = [(0, i) for i in range(1, m)]
+        probes = [(1, m - 1), (m // 2, 2), (0, m - 1), (m // 3, 0)]
+        cut = ("r", 0, 0)
+    elif kind == "hub2":       # a hub mapped to k components, each passing it on to a child
+        k = (m - 1) // 2
+        core = [(0, 1 + i) for i in range(k)] + [(1 + i, 1 + k + i) for i in range(k)]
+        m = 1 + 2 * k
+        probes = [(1 + k, 2 * k), (1 + k + k // 2, 1 + k + 1), (0, 2 * k), (2 * k, 1)]
+        cut = ("d", 0, 1 + k // 2)
+    elif kind == "tree":       # complete binary tree
+        core = [((i - 1) // 2, i) for i in range(1, m)]
+        probes = [(m - 1, m // 2), (m - 1, m - 2), (0, m - 1), (m // 2 + 1, 0)]
+        cut = ("d", 0, 2)
+    elif kind == "barbell":    # two cliques of 20 joined by a long path
+        c = 20
+        path = m - 2 * c
+        core = [(i, j) for i in range(c) for j in range(i + 1, c)]
+        core += [(c + path + i, c + path + j) for i in range(c) for j in range(i + 1, c)]
+        core += [(c - 1 + i, c + i) for i in range(path + 1)]
+        probes = [(0, m - 1), (m - 2, 1), (c + path // 2, 3), (5, c + path + 7)]
+        cut = ("d", c + path // 2, c + path // 2 + 1)
+    else:
+        raise ValueError(kind)
+    n = m + 3
+    p, q, iso = m, m + 1, m + 2
+    perm = list(range(n))
+    rng.shuffle(perm)
+    edges = core + [(p, q)]
+    rng.shuffle(edges)
+    events = []
+    for a, b in edges:
+        if rng.random() < 0.5:
+            a, b = b, a
+        events.append(("e", perm[a], perm[b]))
+    qs = []
+    for a, b in probes:
+        qs += [(a, b), (b, a)]
+    qs += [(probes[0][0], p), (q, probes[0][1]), (p, q), (iso, probes[1][0]), (probes[1][1], iso), (iso, iso), (probes[0][0], probes[0][0])]
+    qs += [(rng.randrange(m), rng.randrange(m)) for _ in range(4)]
+
+    def ask():
+        rng.shuffle(qs)
+        for a, b in qs:
+            events.append(("?", perm[a], perm[b]))
+    ask()
+    events.append((cut[0], perm[cut[1]], perm[cut[2]]))        # a remote edit inside the big part
+    ask()
+    if cut[0] == "d":
+        events.append(("e", perm[cut[2]], perm[cut[1]]))       # and back
+        ask()
+    return {"n": n, "shape": "large-" + kind, "layout": "I:" + ",".join("0" for _ in range(n)), "events": events,
+            "edit_kinds": {"large": 1}, "keep": False}
+
+
+def large_histories(rng, quick):
+    sizes = [("chain", 300), ("star", 300), ("hub2", 301), ("tree", 511), ("barbell", 140)]
+    if not quick:
+        sizes += [("chain", 1000), ("star", 1200), ("hub2", 1001), ("tree", 1023), ("barbell", 640), ("chain", 1500), ("tree", 1500)]
+    return [large_history(rng, k, m) for k, m in sizes]
+
+
 def judge_history(h, c, m):
     """returns (problems, index (in events) of the first failing question or None)"""
     if c.startswith(BAD_TOKENS):
@@ -794,7 +869,7 @@ def run_one(drv, mdl, workdir, line, tag="one"):
     p = os.path.join(workdir, "%s.cases" % tag)
     with open(p, "w") as f:
         f.write(line + "\n")
-    c = vf.sh([drv, p], timeout=120)[1].split("\n")[0].strip()
+    c = vf.sh([drv, p, PER_CASE[0]], timeout=120)[1].split("\n")[0].strip()
     m = vf.sh([mdl, p], timeout=120)[1].split("\n")[0].strip()
     return c, m
 
@@ -824,12 +899,12 @@ def shrink(drv, mdl, workdir, g, first, budget=120):
     return cur
 
 
-def run_sharded(exe, files, timeout, tag):
+def run_sharded(exe, files, timeout, tag, extra=()):
     """one process per shard, all at once; output goes to files so that no process waits on a full pipe"""
     procs = []
     for p in files:
         out = open(p + "." + tag + ".out", "wb")
-        procs.append((subprocess.Popen([exe, p], stdout=out, stderr=subprocess.DEVNULL), out, p + "." + tag + ".out"))
+        procs.append((subprocess.Popen([exe, p] + list(extra), stdout=out, stderr=subprocess.DEVNULL), out, p + "." + tag + ".out"))
     outs = []
     for pr, out, path in procs:
         try:
@@ -845,6 +920,7 @@ def run_sharded(exe, files, timeout, tag):
 
 def run(ctx):
     quick = ctx.quick()
+    PER_CASE[0] = "10" if quick else "30"
     ctx.proofs()
     ctx.assumptions += [
         "distinct live Variable objects have distinct addresses, and no variable is destroyed and another allocated at the same address "
@@ -871,6 +947,15 @@ def run(ctx):
         lines += [l.strip() for l in open(corpus) if l.startswith("G ")]
     ncorpus = len(lines)
     graphs = [parse_case(l) for l in lines]
+    # always present: pairwise-connected sets with an unrelated variable, every pair asked (the negative questions make the
+    # search visit the whole clique; a search that does not share its visited list needs (N-1)! steps for them)
+    for cn in ((12, 14) if quick else (12, 14, 20, 30)):
+        vs = list(range(cn))
+        g = {"n": cn + 2, "shape": "clique+unrelated", "layout": "I:" + ",".join("0" for _ in range(cn + 2)),
+             "ops": [("e", a, b) for a, b in shape_edges(ctx.rng, "clique", vs)] + [("e", cn, cn + 1)],
+             "qs": [(cn, 0), (0, cn), (cn + 1, cn - 1), (cn - 1, cn + 1)] + [(a, b) for a in range(cn + 2) for b in range(cn + 2)]}
+        graphs.append(g)
+        lines.append(case_line(g))
     for _ in range(ngraphs):
         g = gen_graph(ctx.rng, maxn)
         graphs.append(g)
@@ -883,7 +968,7 @@ def run(ctx):
             for l in lines[k::nsh]:
                 f.write(l + "\n")
         files.append(p)
-    couts = run_sharded(drv, files, 3000, "impl")
+    couts = run_sharded(drv, files, 3000, "impl", [PER_CASE[0]])
     mouts = run_sharded(mdl, files, 3000, "model")
     hist = {"shape": {}, "n": {}, "layout": {"V": 0, "I": 0, "J": 0}, "with_destroyed": 0, "analysed(am!=INVALID)": 0,
             "answers_true": 0, "answers_false": 0}
@@ -923,7 +1008,7 @@ def run(ctx):
     for gi, c, m, problems, first in failing[:3]:
         nbad += 1
         g, line = graphs[gi], lines[gi]
-        small = shrink(drv, mdl, ctx.workdir, g, first, budget=(6 if c.startswith("TIMEOUT") else 120))
+        small = shrink(drv, mdl, ctx.workdir, g, first, budget=(2 if c.startswith(SLOW_TOKENS) else 120))
         sl = case_line(small)
         sc, sm = run_one(drv, mdl, ctx.workdir, sl, "min")
         sp, sfirst = judge_graph(small, sc, sm)
@@ -945,27 +1030,36 @@ def run(ctx):
         hists.append(h)
         hlines.append(hist_line(h))
     nsh = min(vf.NCPU, max(1, len(hlines) // 4))
+    shard_idx = [list(range(k, len(hlines), nsh)) for k in range(nsh)]
+    # the SIZE dimension: a few large connected parts (hundreds to ~2000 variables), sampled questions; one shard each,
+    # because the extracted model (unary numbers, lists) needs seconds to minutes for them
+    for h in large_histories(ctx.rng, quick):
+        hists.append(h)
+        hlines.append(hist_line(h))
+        shard_idx.append([len(hlines) - 1])
+    nsh = len(shard_idx)
     files = []
     for k in range(nsh):
         p = os.path.join(ctx.workdir, "hist.%d.cases" % k)
         with open(p, "w") as f:
-            for l in hlines[k::nsh]:
-                f.write(l + "\n")
+            for i in shard_idx[k]:
+                f.write(hlines[i] + "\n")
         files.append(p)
-    couts = run_sharded(drv, files, 3000, "impl")
+    couts = run_sharded(drv, files, 3000, "impl", [PER_CASE[0]])
     mouts = run_sharded(mdl, files, 3000, "model")
     hhist = {"shape": {}, "layout": {"V": 0, "I": 0, "J": 0}, "edit_kinds": {}, "edits": 0, "questions": 0,
              "questions_asked_again_after_an_edit": 0, "answers_that_changed_when_asked_again": 0}
     hfailing = []
     hnontrivial = set()
     for k in range(nsh):
-        for j, hi in enumerate(range(k, len(hlines), nsh)):
+        for j, hi in enumerate(shard_idx[k]):
             h, line = hists[hi], hlines[hi]
             c = couts[k][j].strip() if j < len(couts[k]) else "<missing>"
             m = mouts[k][j].strip() if j < len(mouts[k]) else "<missing>"
             problems, first = judge_history(h, c, m)
             hhist["shape"][h["shape"]] = hhist["shape"].get(h["shape"], 0) + 1
             hhist["layout"][h["layout"][0]] += 1
+            hhist["largest_n"] = max(hhist.get("largest_n", 0), h["n"])
             for kk, v in h.get("edit_kinds", {}).items():
                 hhist["edit_kinds"][kk] = hhist["edit_kinds"].get(kk, 0) + v
             ans = fields(c)["answers"].split(",") if not c.startswith(BAD_TOKENS) else []
@@ -996,7 +1090,7 @@ def run(ctx):
     for hi, c, m, problems, first in hfailing[:3]:
         nbad += 1
         h, line = hists[hi], hlines[hi]
-        small = shrink_history(drv, mdl, ctx.workdir, h, first, budget=(6 if c.startswith("TIMEOUT") else 150))
+        small = shrink_history(drv, mdl, ctx.workdir, h, first, budget=(2 if c.startswith(SLOW_TOKENS) else (30 if h["n"] > 100 else 150)))
         sl = hist_line(small)
         sc, sm = run_one(drv, mdl, ctx.workdir, sl, "min")
         sp, sfirst = judge_history(small, sc, sm)
@@ -1013,6 +1107,9 @@ def run(ctx):
                        "equivalences, destruction of variables) over <= %d variables in shapes %s, with EVERY ordered pair of surviving "
                        "variables (also v,v) queried through the three functions in a shuffled order with ~1/3 repetitions; non-trivial = "
                        "at least one equivalence survives and at least two queries; distinct by the text of the case (measured: %d). "
+                       "always: cliques of 12 and 14 (thorough: to 30) plus an unrelated pair, all pairs (negative questions explore the whole clique; each "
+                       "question has a 5 s budget, token SLOW); large connected parts (chain 300, star 300, hub with 2x150, binary tree 511, two cliques "
+                       "joined by a path; thorough also ~1000-2000 variables) with sampled questions before and after a remote edit. "
                        "histories: a case is a sequence of edits (addEquivalence, removeEquivalence, removeAllEquivalences, destruction of a "
                        "variable, re-adding a removed equivalence, 4-argument addEquivalence with identifiers, set/remove mapping and connection identifiers "
                        "on direct / indirect / unrelated pairs, print+re-parse of the model, no-op/odd calls) interleaved with questions; 40 %% of the "
